@@ -299,7 +299,7 @@ func sweepKey(c *rig.Ctx, k string) {
 		}
 		cs := map[string]string{"key": rig.Hex(k)}
 		c.Case("escape:"+k, true, "escape-sweep", nil)
-		// judge on the real functions: legal header name, exact round trip, decoded key = ASCII-lower-cased key
+		// judge on the real functions: legal header name, exact round trip, decoded key = the key
 		lower := []byte(k)
 		for i, ch := range lower {
 			if 'A' <= ch && ch <= 'Z' {
@@ -312,23 +312,14 @@ func sweepKey(c *rig.Ctx, k string) {
 			continue
 		}
 		if dec != k {
-			// the property wants the key itself; losing exactly the ASCII case is the recorded limitation
+			// the property wants the key itself; losing exactly the ASCII case is the repaired defect C02-extra-key-case
 			class := "c02.escape-decode"
 			if dec == string(lower) {
 				class = "c02.extra-key-case"
-				c.Count("known:sweep:" + class)
-				if reported["sweep:"+class] {
-					class = ""
-				}
-				reported["sweep:"+class] = true
 			}
-			if class != "" {
-				c.Fail(rig.Failure{Kind: "judge", Class: class, Case: cs,
-					What: fmt.Sprintf("extra key %q is sent as %q, which a kube-apiserver decodes as %q", k, header, dec)})
-			}
-			if dec != string(lower) {
-				continue
-			}
+			c.Fail(rig.Failure{Kind: "judge", Class: class, Case: cs,
+				What: fmt.Sprintf("extra key %q is sent as %q, which a kube-apiserver decodes as %q", k, header, dec)})
+			continue
 		}
 		var m struct {
 			Escaped, Header, Decoded string
